@@ -115,8 +115,20 @@ func alphabet(server bool) []op {
 			}})
 		}
 	}
-	for _, id := range ids {
+	for _, id := range append(append([]string{}, ids...), "") {
 		id := id
+		if id == "" {
+			// the empty id names no mode (and is what a fresh model's active mode carries): only deleting it is tried
+			for _, allow := range []bool{false, true} {
+				allow := allow
+				if !server {
+					ops = append(ops, op{name: fmt.Sprintf("DeleteMode(<empty id>,allowMissing=%v)", allow), kind: "delete", arg: id, allow: allow, run: func(x *sys) error {
+						return x.m.DeleteMode("", resource.WithAllowMissing(allow))
+					}})
+				} // (the server refuses a request without an id as malformed: that is not "an absent mode")
+			}
+			continue
+		}
 		for _, variant := range []string{"normal=true", "normal=false", "title", "mask(title),normal=true", "mask(normal)=true", "mask(normal,title)=true", "mask(title,normal)=true"} {
 			variant := variant
 			mk := func(x *sys) (*traits.ElectricMode, *fieldmaskpb.FieldMask) {
@@ -286,7 +298,9 @@ func step(x *sys, o op, k int) (key, msg string) {
 			if err == nil || after.modes[id] == nil {
 				return "active-mode-deleted", fmt.Sprintf("delete of the active mode %q returned %v; still exists: %v", id, codeOf(err), after.modes[id] != nil)
 			}
-		case !existed && !isActive:
+		case !existed:
+			// absent is absent, also when the active mode happens to carry that id (a fresh model's active mode has
+			// the empty id; SetActiveMode accepts ids that name no stored mode)
 			if o.allow && err != nil {
 				return "allow-missing-delete-fails", fmt.Sprintf("deleting the absent mode %q with allow_missing returned %s", id, codeOf(err))
 			}
